@@ -177,6 +177,45 @@ def _check_distances(pair):
     return True, "ok"
 
 
+def _check_wide_distances(n):
+    """registers of n qubits with a handful of outcomes far apart and close together: the squared MMD is finite, symmetric, non-negative, zero on identical
+    arguments and (n <= 53, where outcome codes are exact in double precision) equal to the definition evaluated with exact integer arithmetic"""
+    import math
+    import warnings
+    from orquestra.quantum.distributions import MeasurementOutcomeDistribution as MOD, compute_mmd, compute_clipped_negative_log_likelihood as nll, \
+        compute_jensen_shannon_divergence as jsd
+    one_hot = lambda q: tuple(1 if i == q else 0 for i in range(n))
+    A = {one_hot(0): 0.5, (0,) * n: 0.3, one_hot(n - 1): 0.2}
+    B = {one_hot(n - 1): 0.25, (1,) * n: 0.5, one_hot(n // 2): 0.25}
+    C = {(1,) * n: 0.5, (1,) * (n - 1) + (0,): 0.5}
+    code = lambda k: int("".join(map(str, k)), 2)
+    with warnings.catch_warnings():
+        warnings.simplefilter("error")     # overflow / invalid-value warnings of numpy are failures here
+        for P, Q in ((A, B), (B, C), (A, C)):
+            dp, dq = MOD(dict(P)), MOD(dict(Q))
+            P, Q = dict(dp.distribution_dict), dict(dq.distribution_dict)      # as normalised by the constructor
+            for sigma in (1.0, 2.0 ** n, [0.5, 4.0 ** n]):
+                v, w = float(compute_mmd(dp, dq, {"sigma": sigma})), float(compute_mmd(dq, dp, {"sigma": sigma}))
+                if not (math.isfinite(v) and v >= -1e-12 and abs(v - w) <= 1e-12 * max(1.0, abs(v))):
+                    return False, f"{n} qubits, sigma={sigma}: squared MMD {v} / reversed {w} is not a finite, symmetric, non-negative number"
+                if abs(float(compute_mmd(dp, dp, {"sigma": sigma}))) > 1e-15:
+                    return False, f"{n} qubits: MMD of a distribution with itself is not zero"
+                if n <= 53:
+                    keys = sorted(set(P) | set(Q))
+                    d = [P.get(k, 0) - Q.get(k, 0) for k in keys]
+                    sig = sigma if isinstance(sigma, list) else [sigma]
+                    want = sum(d[i] * d[j] * sum(math.exp(-((code(keys[i]) - code(keys[j])) ** 2) / (2 * s)) for s in sig) / len(sig)
+                               for i in range(len(keys)) for j in range(len(keys)))
+                    if abs(v - want) > 1e-9:
+                        return False, f"{n} qubits, sigma={sigma}: squared MMD {v}, definition (exact integer codes) gives {want}"
+            for eps in (1e-9, 1e-3):
+                x = float(nll(dp, dq, {"epsilon": eps}))
+                want = -sum(tv * math.log(max(eps, Q.get(k, 0))) for k, tv in P.items())
+                if abs(x - want) > 1e-9 or abs(float(jsd(dp, dq, {"epsilon": eps})) - float(jsd(dq, dp, {"epsilon": eps}))) > 1e-9:
+                    return False, f"{n} qubits: clipped NLL / symmetrised divergence wrong on a wide register"
+    return True, "ok"
+
+
 def _check_saveload(i):
     import os
     import tempfile
@@ -344,6 +383,9 @@ def build(tier, seed):
     obs.append(vprop.enum_ob("C17.distances.enum", F_OPS[6:], _pairs, _check_distances,
                              "bounded: MMD symmetric, non-negative, zero exactly on identical arguments (several kernel widths incl. lists); clipped NLL = -sum t log max(eps,m) >= entropy; "
                              "JSD symmetric for several epsilons; parameters and distributions unmodified", exhaustive=False))
+    obs.append(vprop.enum_ob("C17.distances.wide.enum", F_OPS[6:], lambda: [2, 12, 16, 20, 31, 32, 33, 40, 53, 63, 64, 65, 100], _check_wide_distances,
+                             "bounded: distance laws on registers of 2..100 qubits (sparse distributions with far-apart and adjacent outcomes, kernel widths from 1 to 4^n): finite, symmetric, "
+                             "non-negative, zero on self; value = definition with exact integer outcome codes for n <= 53", exhaustive=False))
     obs.append(vprop.enum_ob("C17.saveload.enum", [D + ":save_measurement_outcome_distribution", D + ":load_measurement_outcome_distribution"], lambda: [0], _check_saveload,
                              "bounded: save then load returns the same keys (multi-digit outcomes) and probabilities"))
     return obs
